@@ -9,7 +9,21 @@ NOTE = ("Trusted: Lean 4.33 kernel (axioms of every theorem within propext, Clas
         "stream of this check (sampling, not proof); tools/extract.py for extracted constants; Python identity->indices, "
         "exceptions->Err, recursion->fuel, floats->Rat, datetime->rational days, clock->scripted function.")
 
+GRAPH_TIE = ("The model (lean/PjVerif/Model/Graph*.lean) mirrors task.py/wbs.py statement by statement; it is tied to the code by a "
+             "correspondence stream: random histories of public mutator calls (legal and illegal arguments, shared ids, several WBSs, "
+             "façades kept across calls), each step re-run by the model from the implementation's own pre-state and compared under the "
+             "property's projection, while the Lean monitors (the Bool versions of the very predicates the theorems are about) judge the "
+             "implementation's observed states. A mismatch or a broken proof triggers a failing-input search.")
+
 CLAIMED = {
+    'C01': dict(
+        text=("Theorem C01_step/C01_run (no bound on universe size or history length): every public mutator of the model - parent, "
+              "children, predecessor and successor setters, list façades (append/remove/insert/move/sort/reorder), the //, << and >> "
+              "operators incl. the list-level ones, roots assignment, WBS.remove/remove_all - maps a well-formed graph (hierarchy stored "
+              "consistently on both ends, each child listed once, forest, symmetric acyclic links, no link between ancestor and "
+              "descendant) to a well-formed graph whether the call returns or raises; hence every intermediate state of every history "
+              "is well-formed. " + GRAPH_TIE),
+        design='5 (C01)', technique='Lean 4 invariant proof by induction over operation histories + differential correspondence'),
     'C17': dict(
         text=("Theorems for every calendar definition, date, search start, direction and horizon: the model of calendar.py/resource.py "
               "evaluates every valid definition to the meaning C17 states (C17_eval_den), constructors reject exactly the invalid "
